@@ -21,7 +21,7 @@ ASSUMPTIONS = [
     "any exception raised while building the configuration counts as a rejection; its type is recorded",
 ]
 MIN_NONTRIVIAL = {"quick": 500, "thorough": 2000}
-TIMEOUT = {"quick": 600, "thorough": 1500}
+TIMEOUT = {"quick": 600, "thorough": 7000}
 FIELDS = ("ustar", "mol", "wind_speed", "wind_dir")
 BASE = {"ustar": 0.3, "mol": -50.0, "wind_speed": 3.0, "wind_dir": 200.0}
 
